@@ -527,3 +527,53 @@ package vegeta
 //@     invariant a == old(a) && a.stopch == old(a.stopch) && ticks != nil && results != nil && !closed(ticks) && !closed(results) && ref(ticks) != ref(results)
 //@     invariant ref(a.stopch) != ref(ticks) && ref(a.stopch) != ref(results) && atk != nil && atk.began <= clock(0) && atk.began >= 0
 //@     decreases workers - i
+
+// ---------------------------------------------------------------------------------- C14 C15
+// Targeters. Scope: ownership/independence (frame), default merge, rotation, lock discipline, safety.
+// The line grammar of the http format is a string-language property and is not covered.
+
+//@ lemma rotation_period property C15
+//@   forall n, k int :: k > 0 && n >= 0 ==> emod(n + k, k) == emod(n, k) && 0 <= emod(n, k) && emod(n, k) < k
+
+// Static targeter: the n-th completed draw (n = value of the atomic counter after the add) returns
+// tgts[n mod k]; k consecutive draws use k distinct indices (rot_injective), so after n draws every
+// target was used floor(n/k) or ceil(n/k) times. The counter is only touched by the atomic add.
+//@ func NewStaticTargeter$1
+//@   property C15 C14
+//@   returns (err)
+//@   atomic i
+//@   requires [at-least-one-target] len(tgts) >= 1
+//@   requires [counter-initialised] i >= -1
+//@   assume   [fewer-than-2^63-draws] i < MaxInt64
+//@   modifies i, *tgt
+//@   ensures [nil-target-rejected] tgt == nil ==> err == ErrNilTarget && i == old(i)
+//@   ensures [strict-rotation] tgt != nil ==> err == nil && i == old(i) + 1 && *tgt == tgts[emod(i, len(tgts))]
+//@   ensures [targets-untouched] forall j int :: 0 <= j && j < len(tgts) ==> tgts[j] == old(tgts[j])
+
+//@ func (*jsonTarget).decode
+//@   trusted
+//@   requires t != nil && in != nil
+//@   modifies *t, *in
+
+// JSON targeter: only the line read happens under the reader's mutex; everything else touches locals,
+// the caller's *tgt and fresh memory (frame), so concurrent callers interfere only through the reader.
+//@ func NewJSONTargeter$1
+//@   property C14 C15
+//@   returns (err)
+//@   guarded bufio.Reader by &rd.Mutex
+//@   requires [target-header-unset] tgt == nil || tgt.Header == nil
+//@   requires [reader-ready] rd.Reader != nil && !held(&rd.Mutex)
+//@   requires [package-initialised] ErrNilTarget != nil && ErrNoTargets != nil && ErrNoMethod != nil && ErrNoURL != nil
+//@   modifies *tgt, *rd.Reader
+//@   ensures [nil-target-rejected] tgt == nil ==> err == ErrNilTarget
+//@   ensures [required-fields] err == nil ==> tgt.Method != "" && tgt.URL != ""
+//@   ensures [own-header-map] err == nil ==> tgt.Header != nil && fresh(tgt.Header)
+//@   ensures [lock-released] !held(&rd.Mutex)
+//@   loop 1
+//@     invariant held(&rd.Mutex) && tgt != nil && tgt == old(tgt) && rd.Reader == old(rd.Reader) && rd.Reader != nil && tgt.Header == nil
+//@   loop 2
+//@     invariant !held(&rd.Mutex) && tgt != nil && tgt == old(tgt) && tgt.Header != nil && fresh(tgt.Header) && tgt.Method != "" && tgt.URL != "" && header == old(header)
+//@     invariant forall k string :: cap(tgt.Header[k]) > 0 ==> fresh(tgt.Header[k])
+//@   loop 3
+//@     invariant !held(&rd.Mutex) && tgt != nil && tgt == old(tgt) && tgt.Header != nil && fresh(tgt.Header) && tgt.Method != "" && tgt.URL != ""
+//@     invariant forall k string :: cap(tgt.Header[k]) > 0 ==> fresh(tgt.Header[k])
